@@ -14,6 +14,7 @@ import json
 import os
 import random
 import re
+import shutil
 import subprocess
 import sys
 import time
@@ -138,6 +139,19 @@ def audit(pid, log):
     return names, discharged, problems
 
 
+def recheck(pid, log):
+    """thorough tier: leanchecker (the toolchain's independent re-checker of compiled .olean files) on every module
+    that holds a theorem of `pid`; returns (modules, problem or None)"""
+    modules = sorted({e["module"] for e in theorems_for(pid)})
+    if not modules or shutil.which("leanchecker") is None:
+        return modules, None if modules else None
+    p = subprocess.run(["lake", "env", "leanchecker"] + modules, cwd=LEAN, capture_output=True, text=True)
+    if p.returncode != 0:
+        return modules, "leanchecker rejected " + " ".join(modules) + ": " + (p.stdout + p.stderr)[-600:]
+    log(f"[{pid}] leanchecker re-checked {len(modules)} module(s)")
+    return modules, None
+
+
 # ----------------------------------------------------------------------------------------------
 # step 3: model driver
 # ----------------------------------------------------------------------------------------------
@@ -239,6 +253,11 @@ def main(argv=None):
     names, discharged, problems = ([e["name"] for e in theorems_for(pid)], [], ["build failed"])
     if built:
         names, discharged, problems = audit(pid, log)
+    rechecked = []
+    if built and tier == "thorough":
+        rechecked, rp = recheck(pid, log)
+        if rp:
+            problems.append(rp)
     bad_tokens = forbidden_tokens()
     if bad_tokens:
         problems += ["forbidden token: " + h for h in bad_tokens]
@@ -411,6 +430,7 @@ def main(argv=None):
                 "harness/ (generators, protocol encoders, oracles), CPython 3.12",
             ] + list(getattr(prop, "TRUSTED", [])),
             "theorems": discharged,
+            "leanchecker_modules": rechecked,
             "unproved": problems,
             "evaluations": len(cases),
             "distinct_nontrivial": len(distinct),
